@@ -10,6 +10,7 @@ import (
 	"net/http"
 	"os"
 	"reflect"
+	"sort"
 	"strconv"
 	"strings"
 	"sync"
@@ -129,26 +130,29 @@ type c08Scenario struct {
 	Defect   string     `json:"defect,omitempty"`
 	Probe    string     `json:"probe,omitempty"`
 	PanicVal string     `json:"panic_value,omitempty"`
-	Big      string     `json:"big_field,omitempty"`
-	BigSize  int        `json:"big_size,omitempty"`
+	// batch methods: the resource answers with a DIFFERENT error response for each of these keys (canonical key -> error)
+	BatchErrs map[string]*errFields `json:"batch_errors_returned,omitempty"`
+	Big       string                `json:"big_field,omitempty"`
+	BigSize   int                   `json:"big_size,omitempty"`
 }
 
 type c08Observed struct {
-	Crashed   bool       `json:"crashed"`
-	CrashText string     `json:"crash_text,omitempty"`
-	Invoked   int        `json:"invoked"`
-	Status    int        `json:"status"`
-	ErrHeader bool       `json:"error_header"`
-	IdHeader  bool       `json:"id_header"`
-	Body      string     `json:"body_kind"`
-	BodyErr   *errFields `json:"body_error,omitempty"`
-	Client    string     `json:"client"`
-	ClientErr *errFields `json:"client_error,omitempty"`
-	ClientSt  int        `json:"client_status,omitempty"`
-	After     *errFields `json:"error_object_after,omitempty"`
-	RawBody   string     `json:"raw_body,omitempty"`
-	Hooks     []string   `json:"filter_hooks,omitempty"` // the filter hooks that ran, in order (pre<i> / post<i>)
-	Stamp     bool       `json:"stamp_header,omitempty"` // the response carries the header a PostRequest hook sets
+	Crashed   bool                  `json:"crashed"`
+	CrashText string                `json:"crash_text,omitempty"`
+	Invoked   int                   `json:"invoked"`
+	Status    int                   `json:"status"`
+	ErrHeader bool                  `json:"error_header"`
+	IdHeader  bool                  `json:"id_header"`
+	Body      string                `json:"body_kind"`
+	BodyErr   *errFields            `json:"body_error,omitempty"`
+	Client    string                `json:"client"`
+	ClientErr *errFields            `json:"client_error,omitempty"`
+	ClientSt  int                   `json:"client_status,omitempty"`
+	After     *errFields            `json:"error_object_after,omitempty"`
+	RawBody   string                `json:"raw_body,omitempty"`
+	BatchErrs map[string]*errFields `json:"client_batch_errors,omitempty"` // the Errors map of the BatchResponse the client returned
+	Hooks     []string              `json:"filter_hooks,omitempty"`        // the filter hooks that ran, in order (pre<i> / post<i>)
+	Stamp     bool                  `json:"stamp_header,omitempty"`        // the response carries the header a PostRequest hook sets
 }
 
 type c08Case struct {
@@ -657,13 +661,86 @@ func (d *c08) runCase(e *env, mi *methodInfo, sc *scenario, desc c08Scenario, tr
 	e.T.reset()
 	m := e.clientMethod(mi)
 	g := &genv{r: d.r.Fork(), tame: true}
+	if sc.BatchErrs {
+		batchKeyCount = 4
+	}
 	args := genArgs(g, mi, m.Type())
+	batchKeyCount = 0
 	cr := callClient(m, args)
 	c := &c08Case{Mount: e.Mount.Name, Filters: e.Mount.Filters, Transport: transport, Method: mi.ID(), Kind: mi.Kind, Name: mi.Name, Scenario: desc}
 	c.Observed = observe(e, cr, sc.Err)
+	if sc.BatchErrs {
+		d.batchErrors(c, cr)
+	}
 	d.oracle(c, mi, before, true)
 	d.record(c, mi)
 	return c
+}
+
+// per-key errors of a batch response: each key's error handed to the caller must be exactly the error response the resource
+// returned for THAT key (every field, nothing more), distinct keys must not share one object, and the keys with results are
+// the keys the resource gave results for
+func (d *c08) batchErrors(c *c08Case, cr callResult) {
+	fail := func(sig, what string) {
+		d.rep.Fail("batch:"+sig+":"+c.Kind, what, "restlidata BatchResponse.UnmarshalWithKeyLocator (client), BatchResponse.MarshalRestLi / MarshalBatchEntities (server); v2/restli/collection_batch_methods.go doBatchQuery", c, nil)
+	}
+	inv := invocations()
+	if len(inv) != 1 || !inv[0].RawRes.IsValid() || inv[0].RawRes.IsNil() {
+		return
+	}
+	errsOf := func(v reflect.Value) (map[string]*errFields, map[string]uintptr, []string) {
+		out, ptrs := map[string]*errFields{}, map[string]uintptr{}
+		var results []string
+		if v.Kind() != reflect.Ptr || v.IsNil() {
+			return out, ptrs, nil
+		}
+		em := v.Elem().FieldByName("Errors")
+		for _, k := range em.MapKeys() {
+			ev := em.MapIndex(k)
+			out[canonKey(k)] = fieldsOf(ev.Interface().(*common.ErrorResponse)).projectStack()
+			ptrs[canonKey(k)] = ev.Pointer()
+		}
+		rm := v.Elem().FieldByName("Results")
+		for _, k := range rm.MapKeys() {
+			results = append(results, canonKey(k))
+		}
+		sort.Strings(results)
+		return out, ptrs, results
+	}
+	want, _, wantRes := errsOf(inv[0].RawRes)
+	c.Scenario.BatchErrs = want
+	if cr.Err != nil || len(cr.Outs) == 0 {
+		return // the ordinary oracle reports a failed call
+	}
+	got, ptrs, gotRes := errsOf(cr.Outs[0])
+	c.Observed.BatchErrs = got
+	d.rep.Count(fmt.Sprintf("batch-error-keys=%d", len(want)))
+	if len(got) != len(want) {
+		fail("error-keys-differ", "the keys that carry an error at the client are not the keys the resource reported errors for")
+		return
+	}
+	for k, w := range want {
+		g, ok := got[k]
+		if !ok {
+			fail("error-keys-differ", "the keys that carry an error at the client are not the keys the resource reported errors for")
+			return
+		}
+		if g.key() != w.key() {
+			fail("error-differs", "the error response the client holds under a key of a batch response is not the one the resource returned for that key (another key's error, or fields of another key's error)")
+			return
+		}
+	}
+	seen := map[uintptr]bool{}
+	for _, p := range ptrs {
+		if seen[p] {
+			fail("errors-share-object", "two keys of a batch response share one *ErrorResponse at the client")
+			return
+		}
+		seen[p] = true
+	}
+	if strings.Join(gotRes, ",") != strings.Join(wantRes, ",") {
+		fail("result-keys-differ", "the keys that carry a result at the client are not the keys the resource returned results for")
+	}
 }
 
 func (d *c08) record(c *c08Case, mi *methodInfo) {
@@ -680,7 +757,7 @@ func (d *c08) record(c *c08Case, mi *methodInfo) {
 	}
 	d.rep.Count(fmt.Sprintf("status=%d", c.Observed.Status))
 	d.rep.Count("client=" + strings.SplitN(c.Observed.Client, ":", 2)[0])
-	key := c.Method + "|" + strings.Join(c.Filters, ",") + "|" + c.Scenario.Kind + "|" + c.Scenario.Defect + "|" + strconv.Itoa(c.Scenario.Override) + "|" + strconv.Itoa(c.Scenario.Created) + "|" + c.Scenario.Msg + "|" + c.Scenario.PanicVal
+	key := c.Method + "|" + strings.Join(c.Filters, ",") + "|" + fmt.Sprint(len(c.Scenario.BatchErrs)) + "|" + c.Scenario.Kind + "|" + c.Scenario.Defect + "|" + strconv.Itoa(c.Scenario.Override) + "|" + strconv.Itoa(c.Scenario.Created) + "|" + c.Scenario.Msg + "|" + c.Scenario.PanicVal
 	if c.Scenario.Err != nil {
 		key += c.Scenario.Err.key()
 	}
@@ -741,6 +818,12 @@ func (d *c08) scenarios(e *env, mi *methodInfo, full, small bool, transport stri
 			run("value", 0, 200, "", nil)
 			run("value", 202, 200, "", nil)
 		}
+	}
+	switch mi.Kind {
+	case "BatchGet", "BatchUpdate", "BatchPartialUpdate", "BatchDelete":
+		// per-key errors: two or more keys fail, each with a different error response
+		sc := &scenario{Kind: "value", Created: -1, Rand: d.r.Fork(), Tame: true, BatchErrs: true}
+		d.runCase(e, mi, sc, c08Scenario{Kind: "value"}, transport)
 	}
 	// failures that are not error responses
 	run("plainerr", 0, 0, "plain failure 17", nil)
@@ -989,7 +1072,7 @@ func runC08(cfg *hx.Config) {
 		"client, oracle only)} x mounting {bare handler, ServeMux, prefixed server} (full product on the bare handler, a " +
 		"subset on the others), in-process through the serialized request plus a real-socket sample; servers with filters (lists of 1-3 filters whose PreRequest / PostRequest " +
 		"pass, add context values and response headers, replace the request context with a cancelled one / one past its deadline, fail with a plain error, fail with an *ErrorResponse) x every method x {value, overridden status, plain error, panic, typed nil, " +
-		"nil element, four error responses}; overridden statuses 202, 200 (the status every request starts with), 201, 203, 204 (methods without result); malformed requests (bad key, missing required " +
+		"nil element, four error responses}; batch methods answering with a different error response for each of 2-3 keys and results for the rest (every key's error compared field by field at the client, no shared objects); overridden statuses 202, 200 (the status every request starts with), 201, 203, 204 (methods without result); malformed requests (bad key, missing required " +
 		"parameter, undecodable body, unexpected body) per method; statuses outside 100..999 as probes. non-trivial = any outcome other than the plain value; " +
 		"distinct by (method, outcome, fields)")
 	d.sh = hx.NewShards(cfg.Out, "From Coq Require Import List ZArith.\nFrom Coq.Strings Require Import Byte.\nFrom GR Require Import Base.Bytes Gen.TablesStatus Http.Status Corr.C08Corr.\nImport ListNotations.\n", "C08Corr", 250)
